@@ -98,6 +98,14 @@ def units():
             u_.optional = True          # skipped when the working tree does not instantiate it
             u_.spec_prelude = "#define JPV_MONT_ONE %s\n" % mont_one
             us.append(u_)
+        if n == 384:
+            cmpc = (req(fresh("b"), "__CPROVER_pointer_equals(a, b) || " + fresh("a")) + assigns() +
+                    ens("(__CPROVER_return_value == -1) == (%s < %s)" % (V(n, "a"), V(n, "b")), "(__CPROVER_return_value == 0) == (%s == %s)" % (V(n, "a"), V(n, "b")),
+                        "(__CPROVER_return_value == 1) == (%s > %s)" % (V(n, "a"), V(n, "b"))))
+            u_ = BVUnit("Fq::compare", {"Fq::compare": cmpc, BI.B(n) + "::compare": BI.c_compare(n)}, P + ["C09"], replace=[BI.B(n) + "::compare"], unwind=W + 2, tier=tier,
+                        canary=("== -1) == (", "== 1) == ("), note="the order the encodings' sign flag is defined by (on the stored representation)")
+            u_.optional = True
+            us.append(u_)
         # Fp wrappers bind p to the library constant: the replaced callee's precondition VAL(p)==SPEC_MOD
         # becomes an obligation on the real constant
         for t in ("add", "subtract", "multiply2", "negate"):
